@@ -57,6 +57,9 @@ def cases(draw, max_n=40, mode=None):
         "chunks": chunks,
         "extra": draw(st.sampled_from((0, 0, 0, 1, 2, 3))),
         "mode": mode or draw(st.sampled_from(("manager", "manager", "indicator", "hexital"))),
+        # hexital mode: other member timeframes registered in the same call (each must collapse on its own)
+        "siblings": draw(st.lists(gs.timeframe(), max_size=2)),
+        "late": draw(st.booleans()),
     }
 
 
@@ -79,8 +82,14 @@ def drive(case):
         get = lambda: obj.candles  # noqa: E731
         collapse = obj.candle_manager.collapse_candles
     else:
-        obj = Hexital("c03", mk_candles(rows[:pre]), [HighLowAverage(timeframe=tf)])
-        get = lambda: obj.candles(tf.upper())  # noqa: E731
+        sib = [t for t in dict.fromkeys(case.get("siblings", [])) if t.upper() != tf.upper()]
+        members = [HighLowAverage(timeframe=t) for t in [tf] + sib]
+        if case.get("late"):  # registered in one add_indicator call on a Hexital that already holds the candles
+            obj = Hexital("c03", mk_candles(rows[:pre]), [])
+            obj.add_indicator(members)
+        else:
+            obj = Hexital("c03", mk_candles(rows[:pre]), members)
+        get = lambda: [snap(obj.candles(t.upper()), readings=False) for t in [tf] + sib]  # noqa: E731
         collapse = obj._candles[tf.upper()].collapse_candles
     calls = 0
     for a, b in split_chunks(len(rest), case.get("chunks", [])):
@@ -88,7 +97,10 @@ def drive(case):
         calls += 1
     for _ in range(case.get("extra", 0)):
         collapse()
-    return snap(get(), readings=False), calls
+    if mode == "hexital":
+        got = get()
+        return got[0], calls, dict(zip(sib, got[1:]))
+    return snap(get(), readings=False), calls, {}
 
 
 def run_case(case) -> Result:
@@ -97,9 +109,11 @@ def run_case(case) -> Result:
     want = rr.resample(rows, tf)
     sizes = rr.bucket_sizes(rows, tf)
     try:
-        got, calls = drive(case)
+        got, calls, others = drive(case)
     except Exception as exc:
         return Result([raises(exc)], False, labels)
+    if others:
+        labels.append("hexital_sibling_timeframes")
 
     # an append boundary that splits a bucket
     pre = min(case.get("preload", 0), len(rows))
@@ -124,6 +138,11 @@ def run_case(case) -> Result:
                 f"(len {len(got)} vs {len(want)})",
             )
         )
+    for t, g in others.items():
+        w = rr.resample(rows, tf_seconds(t))
+        if g != w:
+            k = next((i for i, (a, b) in enumerate(zip(g, w)) if a != b), min(len(g), len(w)))
+            viol.append(Violation("differs-from-reference", "hexital-sibling", f"sibling {t} of {case['tf']} bucket {k}: got {g[k] if k < len(g) else None} want {w[k] if k < len(w) else None} (len {len(g)} vs {len(w)})"))
     return Result(viol, nontrivial, labels)
 
 
